@@ -20,10 +20,15 @@ Multi-argument actions: an action may carry 1-2 further keyword arguments (inten
          the VALUES of its arguments - the order in which the keyword arguments are written and the spelling of a number (1 / 1.0) vary
          per flow, so 'identical actions' are also generated written differently (every form: direct, wrapped, fork, round 2, chained);
          argument order is never part of the identity, for 1 vs 1.0 both readings are accepted (unspecified).
-Instances: a sixth of the cases use an ACTIVATED flow `reactor` (loop NEW / L1 / loop of main) with 2-3 stages `match Ev(..)` + `start
+Instances: a seventh of the cases use an ACTIVATED flow `reactor` (loop NEW / L1 / loop of main) with 2-3 stages `match Ev(..)` + `start
          <action>` and the documented label `start_new_flow_instance:` behind one of its matches: older and newer instances of it are
          alive together, 2-4 events are fed; reference model over the history (who waits where, who fits, groups by loop - each instance
          of a NEW-loop flow has a loop of its own -, usual rule per group, restart of the newest instance when it fails or finishes).
+Structured: a seventh of the cases let the event carry a STRUCTURED parameter - a dict / list / set valued parameter `s` (2-4 members, one of
+         them possibly a container itself) or the start arguments of the action whose Finished event is fed, mentioned in
+         `match UtteranceBotAction(<arguments>).Finished(<parameters>)`; every flow mentions some top-level parameters and some members of the
+         structure (or not the structure at all). Score = 0.9^(unmentioned top-level parameters + unmentioned members on every nesting
+         level) x priority: the flow that mentions more members beats the one that mentions fewer, equal counts are ties.
 """
 import itertools
 import json
@@ -46,7 +51,7 @@ RULE = (
     "of flow 0 in another writing (other argument order and/or other number spelling), two times out of three in the loop of flow 0; "
     "direct or wrapped one level down (all flows of a case use the same depth); some flows start their action through a head fork (`when <Action>`), in a quarter of those cases a supervisor flow in its own loop stops one competitor with `send StopFlow` on the same event; in one direct case of three a second round follows: the co-winners "
     "share one action object, its Finished event is fed and they compete again on `match $a.Finished()` (only priorities differ) with second actions; event Ev(a=1,b=2,c=3); tie-break index list "
-    "drawn. About a quarter of the generated cases are CHAINED: every flow has its own depth - direct, or its match on Ev sits in a helper flow (own helper h<i>, or "
+    "drawn. About a fifth (3 in 14) of the generated cases are CHAINED: every flow has its own depth - direct, or its match on Ev sits in a helper flow (own helper h<i>, or "
     "one of 0-2 helpers hs<k> started by main and shared by several competitors) and the flow reaches its action through 1-2 links, each either "
     "`start X` + `match X.Finished()` by flow name or `await X`, each level (helper, middle flow, competitor) with its own priority from {none,1.0,0.5,0.1}; "
     "forced shapes (2 of 9 each): the chain of flow 1 is a proper prefix of the chain of flow 0 (same loop/specificity/priority, fewer links), or flows differ "
@@ -59,7 +64,7 @@ RULE = (
     "tie-break outcomes. A second enumerated family (900 cases) "
     "pairs every long form (6 link patterns x own/shared helper x 3 settings of the external match) with each of its proper prefixes and with a copy whose priority "
     "differs in one link, in both start orders, for both tie-break outcomes, with/without a third less specific direct competitor. "
-    "A sixth of the generated cases are INSTANCES cases: main activates a flow `reactor` ([@loop(NEW x3 | L1)] or the loop of main, [priority 0.5|0.1]) with 2-3 "
+    "A seventh of the generated cases are INSTANCES cases: main activates a flow `reactor` ([@loop(NEW x3 | L1)] or the loop of main, [priority 0.5|0.1]) with 2-3 "
     "stages `match Ev(subset, maybe one altered value)` + `start <action>` (a third: the same action in every stage, possibly written differently) that then "
     "waits forever or (a quarter) ends; the label `start_new_flow_instance:` sits behind the match of one stage, before or after the action of that stage "
     "(mostly the first stage; sometimes no label), so that an older instance (further down) and newer ones (at the first match) are alive at the same time; "
@@ -68,15 +73,36 @@ RULE = (
     "action of flow 0 in each of the 11 other ways x who is more specific / exact tie x no / less specific / more specific third flow with another action x direct "
     "(half of them through a head fork) / wrapped x both tie-breaks) and 216 instances cases (two stages, label behind the first match before/after the action, "
     "3x3 specificities of the two matches, different/identical actions, loop NEW / L1 / main, three events, both tie-breaks). "
+    "A seventh of the generated cases are STRUCTURED cases: the triggering event carries a structured parameter - Ev(a=1,b=2,c=3,s=V) with V a dict / list / set of 2-4 "
+    "distinct scalars (int, str, float, bool; a third of the dicts and lists with one member that is itself a dict / list / set of 2-3 members), or (carrier action, a "
+    "third) main starts UtteranceBotAction(script=\"hello\"[, intensity=1.0[, volume=2.0[, voice=\"calm\"]]]) and the event is its UtteranceBotActionFinished(final_script, "
+    "is_success), the flows matching `UtteranceBotAction(<start arguments>).Finished(<parameters>)`; flow i (n, loops, priorities, actions, wrong top-level value as above; direct, "
+    "a quarter wrapped) mentions a drawn subset of the top-level parameters and of the structure either nothing (a fifth) or a pattern derived from V: a subset of the keys / a "
+    "prefix of the list / a subset of the elements (down to the empty container), nested containers likewise; one pattern in seven has one altered leaf value (does not fit); "
+    "forced shape (half of these cases): flow 1 and some others copy top-level mention, priority and loop of flow 0 and mention a part (maybe all) of what flow 0 mentions of the "
+    "structure, start order drawn, so that only the number of mentioned MEMBERS separates them. Enumerated: 592 structured cases (dict / list / set of 2-3 scalars and 2-3 start "
+    "arguments: every pair 'k members mentioned' against 'fewer members mentioned' down to the empty container; 6 pairs that differ only inside a nested container; all / one "
+    "top-level parameter mentioned x both start orders x both tie-breaks x with / without a third flow that mentions all top-level parameters but not the structure). "
     "Non-trivial = some loop has >=3 fitting flows with >=2 distinct scores, or an exact tie between different "
     "actions, or >=2 loops with fitting flows; chained: a loop with >=2 different actions where the winner is determined (or narrowed to the flows with the best match on the event) and somebody loses or an exact tie "
     "between different actions exists; instances cases: at some event two instances of the reactor fit (older and newer), or an instance and another "
-    "candidate meet in one loop; distinct by case."
+    "candidate meet in one loop; structured cases: the usual rule, or two flows with different actions that differ only in the members of the structure they mention and of "
+    "which exactly one may win; distinct by case."
 )
 ASSUMPTIONS = [
     "scores within 1e-9 are treated as tied and any tied flow may win (validity predicate)",
     "in the wrapped variant the priority statement sits in the inner flow that performs the match, so the first element of the score chain is 0.9^u x p",
-    "only action starts compete; the event carries exactly the three parameters a, b, c",
+    "only action starts compete; the event carries exactly the three parameters a, b, c (structured cases: plus the structured parameter s; carrier action: the parameters "
+    "final_script and is_success of the Finished event - its action_uid is mentioned by nobody and scales every score alike)",
+    "structured cases: docs/colang_2/language_reference/more-on-flows.rst multiplies the score by 0.9 for every parameter of the event the match does not mention; "
+    "event-generation-and-matching.rst matches container parameters member by member, containers inside recursively, the expected container being allowed to be smaller: the "
+    "reference model counts every member of the received structure that the expected one leaves out, on every nesting level, as one unmentioned parameter (0.9 each), so 'fewest "
+    "unmentioned parameters' ranks a flow that mentions more members above one that mentions fewer and equal totals (e.g. one top-level parameter against one member) are exact ties "
+    "(any of them may win); the same holds for the start arguments of the finished action named in `<Action>(<arguments>).Finished()`",
+    "structured cases: what a structure costs that a flow does not mention AT ALL (or a nested container that is left out as a whole) is not documented beyond '0.9 per missing "
+    "parameter': it is counted as ONE parameter (reading A), as all its members (reading B) and - start arguments of an action, which are no parameter of the Finished event - as "
+    "nothing (reading C); a flow that is top-scoring under any of these readings may win (label structured-unmentioned-structure-readings-disagree)",
+    "structured cases: expected lists are prefixes of the received list (position-wise and in-order reading of the list rule coincide); numbers are written as in the event (no 1 vs 1.0)",
     "an action is identical to another iff type and argument values are equal; the order in which keyword arguments are written is not part of an action",
     "whether intensity=1 and intensity=1.0 are the same argument value is NOT specified (Colang expressions say 1 == 1.0, event matching treats them as different, "
     "C04 lists the pair as unspecified): such pairs are generated, the by-value reading is tried first and, if the outcome contradicts it, the by-value-and-type "
@@ -114,7 +140,7 @@ EXTRA_VALUES = [1, 2, 0.5]
 
 
 def budget(tier):
-    return 6000 if tier == "quick" else 80000
+    return 7000 if tier == "quick" else 93000
 
 
 def _written_args(f):
@@ -348,7 +374,9 @@ def _case(draw):
         flows[1] = dict(flows[1], mentioned=flows[0]["mentioned"], wrong=flows[0]["wrong"], priority=flows[0]["priority"], loop=flows[0]["loop"])
     if draw(st.integers(0, 3)) == 0:
         _respell(draw, flows)
-    kind = draw(st.integers(0, 11))
+    kind = draw(st.integers(0, 13))
+    if kind >= 12:
+        return draw(_structured_case(flows))
     if kind >= 10:
         return draw(_instances_case(flows))
     if kind >= 7:
@@ -420,6 +448,7 @@ def enumerate_cases(tier):
     yield from _enumerate_first_match()
     yield from _enumerate_spellings()
     yield from _enumerate_instances()
+    yield from _enumerate_structured()
 
 
 def _enumerate_first_match():
@@ -733,6 +762,410 @@ def _prop_instances(case):
     return ok(nt=nt, labels=sorted(labels), view=view)
 
 
+# ------------------------------------------------------------------------------------------------
+# competitors that mention the same STRUCTURED parameter with a different number of members
+
+
+S_SCALARS = [11, 12, "x", "y", 2.5, True]
+S_INNER = [{"j1": 21, "j2": 22}, {"j1": 21, "j2": 22, "j3": "z"}, [31, 32], [31, 32, 33], {"__set__": [41, 42]}]
+S_ACTION_ARGS = [["script", "hello"], ["intensity", 1.0], ["volume", 2.0], ["voice", "calm"]]
+# top-level parameters of the triggering event: containers ride on Ev(a=1, b=2, c=3, s=<container>); the start arguments of an action
+# are matched on UtteranceBotActionFinished(final_script="hello", is_success=True) of the action that main started
+S_TOP = {"a": ("a", 1, 11), "b": ("b", 2, 12), "c": ("c", 3, 13)}
+S_TOP_ACTION = {"a": ("final_script", "hello", "other"), "b": ("is_success", True, False)}
+S_READINGS = {"dict": "AB", "list": "AB", "set": "AB", "action": "ABC"}
+
+
+def _is_set(x):
+    return isinstance(x, dict) and "__set__" in x
+
+
+def _members(x):
+    """The members of a container value (None for a scalar)."""
+    if _is_set(x):
+        return list(x["__set__"])
+    if isinstance(x, dict):
+        return list(x.values())
+    if isinstance(x, list):
+        return list(x)
+    return None
+
+
+def _leaves(x):
+    m = _members(x)
+    return 1 if m is None else sum(_leaves(i) for i in m)
+
+
+def _same_scalar(p, v):
+    return _members(p) is None and _members(v) is None and type(p) is type(v) and p == v
+
+
+def _sfit(P, V, unit):
+    """Documented matching of a container parameter (event-generation-and-matching.rst: the expected container is not larger than the
+    received one, every expected member matches the corresponding received member - same key / same position / some element -,
+    containers recursively). Returns None if P does not match V, else the number of members of V that P leaves unmentioned
+    (`unit(member)` for each of them, on every nesting level)."""
+    if _is_set(P):
+        if not _is_set(V) or len(P["__set__"]) > len(V["__set__"]):
+            return None
+        rest = list(V["__set__"])
+        for p in P["__set__"]:
+            hit = [v for v in rest if _same_scalar(p, v)]
+            if not hit:
+                return None
+            rest.remove(hit[0])
+        return sum(unit(v) for v in rest)
+    if isinstance(P, list):
+        if not isinstance(V, list) or len(P) > len(V):
+            return None
+        n = 0
+        for p, v in zip(P, V):  # generated expected lists are prefixes of the received list: items at the same position
+            r = _sfit(p, v, unit)
+            if r is None:
+                return None
+            n += r
+        return n + sum(unit(v) for v in V[len(P):])
+    if isinstance(P, dict):
+        if not isinstance(V, dict) or _is_set(V) or len(P) > len(V):
+            return None
+        n = 0
+        for k, p in P.items():
+            if k not in V:
+                return None
+            r = _sfit(p, V[k], unit)
+            if r is None:
+                return None
+            n += r
+        return n + sum(unit(v) for k, v in V.items() if k not in P)
+    return 0 if _same_scalar(P, V) else None
+
+
+def _canon(x):
+    """Keys of every dict in sorted order (a stored case comes back with sorted keys: program text and payload must not depend on it)."""
+    if isinstance(x, dict):
+        return {k: _canon(x[k]) for k in sorted(x)}
+    if isinstance(x, list):
+        return [_canon(i) for i in x]
+    return x
+
+
+def _s_top(case):
+    return S_TOP_ACTION if case["carrier"] == "action" else S_TOP
+
+
+def _s_unmentioned(case, f, reading):
+    """Number of unmentioned parameters / members of the match of f (None = the match does not fit the event). Readings differ only in
+    what a structure (or nested container) costs that is not mentioned AT ALL: A = one parameter (documented: 0.9 for every missing
+    parameter), B = all its members, C (start arguments of an action only) = nothing, they are not a parameter of the Finished event."""
+    if f["wrong"] is not None:
+        return None
+    unit = (lambda v: _leaves(v)) if reading == "B" else (lambda v: 1)
+    n = len(_s_top(case)) - len(f["mentioned"])
+    if f["spat"] is None:
+        return n + (0 if reading == "C" else unit(case["value"]))
+    r = _sfit(f["spat"], case["value"], unit)
+    return None if r is None else n + r
+
+
+def _s_score(case, f, reading="A"):
+    n = _s_unmentioned(case, f, reading)
+    return 0.0 if n is None else 0.9**n * (f["priority"] or 1.0)
+
+
+def _s_match_text(case, f):
+    top = _s_top(case)
+    args = [f"{top[k][0]}={smh.lit(top[k][2] if k == f['wrong'] else top[k][1])}" for k in f["mentioned"]]
+    if case["carrier"] == "action":
+        inner = ", ".join(f"{k}={smh.lit(v)}" for k, v in (f["spat"] or {}).items())
+        return f"UtteranceBotAction({inner}).Finished({', '.join(args)})"
+    if f["spat"] is not None:
+        args.append(f"s={smh.lit(f['spat'])}")
+    return f"Ev({', '.join(args)})"
+
+
+def _structured_program(case):
+    lines = []
+    for i, f in enumerate(case["flows"]):
+        deco = [f'@loop("{f["loop"]}")'] if f["loop"] else []
+        prio = [f"  priority {f['priority']}"] if f["priority"] is not None else []
+        match = [f"  match {_s_match_text(case, f)}"]
+        tail = [f"  start {_action_text(f)}", f"  match Never{i}()", ""]
+        if case["wrapped"]:
+            lines += [f"flow inner{i}"] + prio + match + [""] + deco + [f"flow c{i}", f"  await inner{i}"] + tail
+        else:
+            lines += deco + [f"flow c{i}"] + prio + match + tail
+    lines.append("flow main")
+    for i in range(len(case["flows"])):
+        lines.append(f"  start c{i}")
+    if case["carrier"] == "action":
+        lines.append("  start UtteranceBotAction(" + ", ".join(f"{k}={smh.lit(v)}" for k, v in case["value"].items()) + ") as $m")
+    lines += ["  match Never()", ""]
+    return "\n".join(lines)
+
+
+@st.composite
+def _svalue(draw, carrier):
+    n = draw(st.sampled_from([2, 2, 3, 3, 4]))
+    if carrier == "action":
+        return {k: v for k, v in S_ACTION_ARGS[:n]}
+    items = list(draw(st.permutations(S_SCALARS)))[:n]
+    if carrier == "set":
+        return {"__set__": items}
+    if draw(st.integers(0, 2)) == 0:
+        # second nesting level: one member is a container itself
+        items[draw(st.integers(0, n - 1))] = _cp(draw(st.sampled_from(S_INNER if carrier == "dict" else S_INNER[:4])))
+    return items if carrier == "list" else {f"k{j + 1}": v for j, v in enumerate(items)}
+
+
+def _subpattern(draw, V, min_members=0):
+    """A pattern that matches V and mentions some of its members: a subset of the keys / a prefix of the list / a subset of the
+    elements, containers recursively; `min_members` members of the outermost level are kept at least."""
+    if _is_set(V):
+        keep = [draw(st.integers(0, 2)) != 0 for _ in V["__set__"]]
+        first = draw(st.integers(0, max(len(keep) - 1, 0)))
+        for j in range(min(min_members, len(keep))):
+            keep[(first + j) % len(keep)] = True
+        return {"__set__": [v for v, k in zip(V["__set__"], keep) if k]}
+    if isinstance(V, list):
+        n = max(min(min_members, len(V)), len(V) - draw(st.sampled_from([0, 0, 0, 1, 1, 2, 4])))
+        return [_subpattern(draw, v) for v in V[:n]]
+    if isinstance(V, dict):
+        keys = list(V)
+        keep = [draw(st.integers(0, 2)) != 0 for _ in keys]
+        first = draw(st.integers(0, max(len(keep) - 1, 0)))
+        for j in range(min(min_members, len(keep))):
+            keep[(first + j) % len(keep)] = True
+        return {k: _subpattern(draw, V[k]) for k, kp in zip(keys, keep) if kp}
+    return V
+
+
+def _scalar_paths(P, path=()):
+    if _is_set(P):
+        return [path + ("__set__", j) for j in range(len(P["__set__"]))]
+    if isinstance(P, list):
+        return [q for j, v in enumerate(P) for q in _scalar_paths(v, path + (j,))]
+    if isinstance(P, dict):
+        return [q for k, v in P.items() for q in _scalar_paths(v, path + (k,))]
+    return [path]
+
+
+def _altered(P, path):
+    """P with the scalar at `path` replaced by a value that occurs nowhere in a received structure."""
+    P = _cp(P)
+    node = P
+    for k in path[:-1]:
+        node = node[k]
+    v = node[path[-1]]
+    node[path[-1]] = "zz" if isinstance(v, str) else (not v) if isinstance(v, bool) else 99
+    return P
+
+
+@st.composite
+def _structured_case(draw, flows):
+    """The triggering event carries a structured parameter: a dict / list / set valued parameter `s` of Ev (members scalars, a third of
+    the dicts and lists with one member that is a container itself), or - carrier `action` - the start arguments of an action that main
+    started, mentioned in `match UtteranceBotAction(<arguments>).Finished(<parameters>)`. Every flow mentions a drawn part of the
+    top-level parameters as usual and of the structure: not at all, or with a drawn subset of its members (one flow in seven with one
+    altered value: does not fit). Forced shape (half of the cases): flow 1 and some others copy top-level mention, priority and loop
+    of flow 0 and mention a part of what flow 0 mentions of the structure (start order drawn) - only the members of the structure
+    tell them apart."""
+    flows = _cp(flows)
+    carrier = draw(st.sampled_from(["dict", "dict", "list", "set", "action", "action"]))
+    value = draw(_svalue(carrier))
+    top = S_TOP_ACTION if carrier == "action" else S_TOP
+
+    def norm(p):
+        return None if (carrier == "action" and p == {}) else p
+
+    for f in flows:
+        f["mentioned"] = [k for k in f["mentioned"] if k in top]
+        if f["wrong"] not in f["mentioned"]:
+            f["wrong"] = None
+        f["spat"] = None
+        if draw(st.integers(0, 4)) != 0:
+            f["spat"] = _subpattern(draw, value)
+            paths = _scalar_paths(f["spat"])
+            if paths and draw(st.integers(0, 6)) == 0:
+                f["spat"] = _altered(f["spat"], draw(st.sampled_from(paths)))
+            f["spat"] = norm(f["spat"])
+    if draw(st.booleans()):
+        f0 = flows[0]
+        f0["wrong"] = None
+        f0["spat"] = _subpattern(draw, value, min_members=draw(st.sampled_from([1, 2, 2, 3, 4])))
+        for j in range(1, len(flows)):
+            if j == 1 or draw(st.booleans()):
+                flows[j] = dict(flows[j], mentioned=list(f0["mentioned"]), wrong=None, priority=f0["priority"], loop=f0["loop"], spat=norm(_subpattern(draw, f0["spat"])))
+        if draw(st.booleans()):
+            flows[0], flows[1] = flows[1], flows[0]
+    return {
+        "kind": "structured",
+        "carrier": carrier,
+        "value": value,
+        "flows": flows,
+        "wrapped": draw(st.integers(0, 3)) == 0,
+        "choices": draw(st.lists(st.integers(0, 5), min_size=1, max_size=4)),
+    }
+
+
+def _enumerate_structured():
+    """Two flows of one loop with different actions mention the same structure - a dict / list / set valued event parameter with 2-3
+    scalar members, the 2-3 start arguments of the finished action, or a dict / list with one nested container - and nothing else
+    differs: every pair (k members mentioned, fewer members mentioned - down to the empty container) in both start orders, for both
+    tie-break outcomes, alone / with a third flow that does not mention the structure at all but all top-level parameters."""
+    values = []
+    for n in (2, 3):
+        sc = [11, "x", 2.5][:n]
+        values += [("dict", {f"k{j + 1}": v for j, v in enumerate(sc)}), ("list", list(sc)), ("set", {"__set__": list(sc)}), ("action", {k: v for k, v in S_ACTION_ARGS[:n]})]
+    pairs = []
+    for carrier, value in values:
+        n = len(_members(value))
+        for hi in range(1, n + 1):
+            for lo in range(0 if carrier != "action" else 1, hi):
+                cut = lambda k: {"__set__": value["__set__"][:k]} if carrier == "set" else value[:k] if carrier == "list" else dict(list(value.items())[:k])  # noqa: E731
+                pairs.append((carrier, value, cut(hi), cut(lo)))
+    # second nesting level: the competitors differ only in what they mention of a container INSIDE the structure
+    pairs += [
+        ("dict", {"k1": 11, "k2": {"j1": 21, "j2": 22}}, {"k1": 11, "k2": {"j1": 21, "j2": 22}}, {"k1": 11, "k2": {"j1": 21}}),
+        ("dict", {"k1": 11, "k2": {"j1": 21, "j2": 22}}, {"k2": {"j1": 21}}, {"k2": {}}),
+        ("dict", {"k1": [31, 32, 33], "k2": "x"}, {"k1": [31, 32, 33], "k2": "x"}, {"k1": [31], "k2": "x"}),
+        ("dict", {"k1": {"__set__": [41, 42]}, "k2": "x"}, {"k1": {"__set__": [41, 42]}}, {"k1": {"__set__": [42]}}),
+        ("list", [{"j1": 21, "j2": 22}, 12], [{"j1": 21, "j2": 22}, 12], [{"j1": 21}, 12]),
+        ("list", [11, [31, 32]], [11, [31, 32]], [11, [31]]),
+    ]
+    for carrier, value, hi, lo in pairs:
+        top = ["a", "b"] if carrier == "action" else ["a", "b", "c"]
+        for mentioned in (top, top[:1]):
+            for order in (0, 1):
+                for third in (False, True):
+                    for choice in (0, 1):
+                        fl = [
+                            {"mentioned": mentioned, "wrong": None, "priority": None, "action": 0, "loop": None, "spat": hi},
+                            {"mentioned": mentioned, "wrong": None, "priority": None, "action": 1, "loop": None, "spat": lo},
+                        ][:: 1 - 2 * order]
+                        if third:
+                            fl.append({"mentioned": top, "wrong": None, "priority": None, "action": 2, "loop": None, "spat": None})
+                        yield {"kind": "structured", "carrier": carrier, "value": _cp(value), "flows": _cp(fl), "wrapped": False, "choices": [choice]}
+
+
+def _prop_structured(case):
+    """Usual rule per loop; the score of a match is 0.9^(unmentioned top-level parameters + unmentioned members of the structure on every
+    nesting level) x priority. Where the readings of 'a structure that is not mentioned at all' name different top sets any flow of
+    their union may win."""
+    case = dict(case, value=_canon(case["value"]), flows=[dict(f, spat=_canon(f["spat"])) for f in case["flows"]])
+    flows, value, carrier = case["flows"], case["value"], case["carrier"]
+    aid = [_aid(f) for f in flows]
+    smh.install()
+    smh.CHOOSER.reset(case["choices"])
+    state = smh.init(_structured_program(case))
+    if carrier == "action":
+        begun = [e for e in state.outgoing_events if _is_start(e)]
+        if len(begun) != 1:
+            raise RuntimeError(f"harness: main started {len(begun)} actions")
+        event = smh.ev("UtteranceBotActionFinished", action_uid=begun[0]["action_uid"], **{n: v for n, v, _ in S_TOP_ACTION.values()})
+        shown = f"main started UtteranceBotAction({', '.join(f'{k}={smh.lit(v)}' for k, v in value.items())}); event UtteranceBotActionFinished(action_uid=<that action>, final_script=\"hello\", is_success=True)"
+    else:
+        event = smh.ev("Ev", **{n: v for n, v, _ in S_TOP.values()}, s=smh.to_py(value))
+        shown = f"event Ev(a=1, b=2, c=3, s={smh.lit(value)})"
+    smh.CHOOSER.reset(case["choices"])
+    out = smh.feed(state, event)
+    starts = Counter(_start_key(e) for e in out if _is_start(e))
+    status = {}
+    for fs in state.flow_states.values():
+        if fs.flow_id.startswith("c") and fs.flow_id[1:].isdigit():
+            status.setdefault(int(fs.flow_id[1:]), []).append(fs.status.value)
+    readings = S_READINGS[carrier]
+    sc = {r: [_s_score(case, f, r) for f in flows] for r in readings}
+    desc = (
+        shown
+        + " | "
+        + "; ".join(
+            f"c{i}[loop={f['loop'] or 'main'} match {_s_match_text(case, f)} unmentioned={_s_unmentioned(case, f, 'A')} score={sc['A'][i]:.4g} action={_adesc(f)}]"
+            for i, f in enumerate(flows)
+        )
+        + (" wrapped" if case["wrapped"] else "")
+    )
+    observed = {i: (status.get(i) or ["missing"])[-1] for i in range(len(flows))}
+    for i in observed:
+        if len(status.get(i, [])) != 1:
+            raise Violation("instances", f"{desc}: flow c{i} has instances {status.get(i)}")
+    groups = {}
+    for i, f in enumerate(flows):
+        key = f["loop"] if f["loop"] != "NEW" else f"NEW{i}"
+        groups.setdefault(key or "main", []).append(i)
+    labels = {"structured", f"structured-{carrier}", f"n{len(flows)}", f"loops{len(groups)}", "wrapped" if case["wrapped"] else "direct"}
+    if any(_members(m) is not None for m in _members(value)):
+        labels.add("structured-second-nesting-level")
+    nt = False
+    fitting_groups = 0
+    exp = Counter()
+    for g, members in groups.items():
+        fit = [i for i in members if sc["A"][i] > 0]
+        for i in members:
+            if i not in fit and observed[i] != "started":
+                raise Violation("nonfitting-touched", f"{desc}: c{i} did not fit the event but is {observed[i]}")
+        if not fit:
+            continue
+        fitting_groups += 1
+        tops = {}
+        for r in readings:
+            best = max(sc[r][i] for i in fit)
+            tops[r] = [i for i in fit if abs(sc[r][i] - best) <= 1e-9]
+        tied = sorted(set().union(*tops.values()))
+        if any(t != tops["A"] for t in tops.values()) and len({aid[i] for i in tied}) >= 2:
+            labels.add("structured-unmentioned-structure-readings-disagree")
+        options = []
+        for w in tied:
+            winners = sorted(i for i in fit if aid[i] == aid[w])
+            if (aid[w], winners) not in options:
+                options.append((aid[w], winners))
+        running = sorted(i for i in fit if observed[i] == "started")
+        match = [o for o in options if o[1] == running]
+        if not match:
+            raise Violation(
+                "wrong-winners",
+                f"{desc}: loop {g}: flows still running {['c%d' % i for i in running]}, statuses {observed}; allowed winner sets {[['c%d' % i for i in o[1]] for o in options]}",
+            )
+        for i in fit:
+            if i not in running and observed[i] != "stopped":
+                raise Violation("loser-not-stopped", f"{desc}: loop {g}: losing flow c{i} is {observed[i]}")
+        exp[_aid_key(match[0][0])] += 1
+        # what the group exercises
+        base = lambda i: (len(flows[i]["mentioned"]), flows[i]["priority"] or 1.0)  # noqa: E731
+        for i, j in itertools.combinations(fit, 2):
+            if aid[i] == aid[j] or flows[i]["spat"] is None or flows[j]["spat"] is None:
+                continue
+            if base(i) == base(j) and abs(sc["A"][i] - sc["A"][j]) > 1e-9 and (i in tied) != (j in tied):
+                # same top-level mention and priority: only the number of mentioned members separates the two, and one of them may not win
+                labels.add("members-of-the-structure-decide")
+                nt = True
+            elif base(i) != base(j) and abs(sc["A"][i] - sc["A"][j]) <= 1e-9 and flows[i]["spat"] != flows[j]["spat"]:
+                labels.add("tie-of-top-level-and-nested-unmentioned")
+        if any(flows[i]["spat"] is None for i in fit) and any(flows[i]["spat"] is not None for i in fit):
+            labels.add("structure-unmentioned-by-some")
+        if (len(fit) >= 3 and len({round(sc["A"][i], 9) for i in fit}) >= 2) or len(options) >= 2:
+            nt = True
+    if exp != starts:
+        raise Violation(
+            "wrong-actions",
+            f"{desc}: started actions { {_key_text(k): v for k, v in starts.items()} }, expected { {_key_text(k): v for k, v in exp.items()} } (each winning action exactly once per loop)",
+        )
+    if fitting_groups >= 2:
+        nt = True
+    if any(f["priority"] not in (None, 1.0) for f in flows):
+        labels.add("priority")
+    if any(f["wrong"] for f in flows):
+        labels.add("has-nonfitting")
+    if any(f["wrong"] is None and sc["A"][i] == 0 for i, f in enumerate(flows)):
+        labels.add("member-of-the-structure-does-not-fit")
+    if smh.CHOOSER.used:
+        labels.add("tie-break-used")
+    if any(len(m) != len({aid[i] for i in m}) for m in groups.values()):
+        labels.add("equal-actions")
+    labels |= set(_spelling_labels([[flows[i] for i in m if sc["A"][i] > 0] for m in groups.values()], flows))
+    view = {"flows": desc, "started": {_key_text(k): v for k, v in starts.items()}, "status": {f"c{i}": s for i, s in observed.items()}}
+    return ok(nt=nt, labels=sorted(labels), view=view)
+
+
 def _base(case, i):
     """The flow statement that matches the external event: the flow itself, or the shared helper it hangs on."""
     form = (case.get("forms") or [None] * (i + 1))[i]
@@ -909,6 +1342,8 @@ def prop(case):
 def _prop(case):
     if case.get("kind") == "instances":
         return _prop_instances(case)
+    if case.get("kind") == "structured":
+        return _prop_structured(case)
     flows = case["flows"]
     aid = [_aid(f) for f in flows]
     text = program(case)
